@@ -695,6 +695,18 @@ struct LcSim : Harness {
   // not to blame and the death is counted as a side finding, not as a verdict on a history property.
   void reclassify(const Json &plan, ChildEnd &e) override {
     if (!plan.has("prog")) return;
+    // Modules created through c2mir carry whatever c2mir made of the generated C.  If the very same history with those
+    // modules created from the MIR text of the same program (scan) behaves, the fault lies in the C translation (C07
+    // territory: e.g. a 32-bit result whose undefined upper half is used, which makes the outcome depend on stale
+    // register / stack contents and therefore *look* history dependent), not in the history.
+    if (e.cls == "wrong_result" || e.cls == "wrong_ext_log" || e.cls == "crash") {
+      bool has_c2m = false; Json p = plan;
+      for (auto &op : p["ops"].a) if (op.k == Json::Arr && op.size() > 1 && op[0].s == "c2m") { op[0] = Json("scan"); has_c2m = true; }
+      if (has_c2m) {
+        ChildEnd c = run_isolated(*this, p, hang_seconds(), false);
+        if (c.status == "ok") { e.detail = "the same history with the c2mir-compiled modules created from MIR text instead behaves correctly: " + e.detail; e.sig = e.cls + "_" + e.sig; e.cls = "side_c2mir_translation_defect"; return; }
+      }
+    }
     if (e.cls == "wrong_result" || e.cls == "wrong_ext_log") {
       // Same experiment for a wrong value: same program, same creation routes, one ordinary link step with the engine that
       // produced the wrong value (interpreter, or eager generation at each level), then the same calls.  If the model is
@@ -719,6 +731,14 @@ struct LcSim : Harness {
     }
     if (e.cls != "crash" && e.cls != "hang") return;
     bool was_hang = e.cls == "hang"; int tmo = was_hang ? 12 : hang_seconds();
+    {  // known finding: lazy-bb thunks / branch patches reach only +-2GB.  Same history with all code packed together?
+      bool bb = false; for (auto &op : plan.at("ops").a) if (op.k == Json::Arr && op.size() > 1 && op[0].s == "link" && op[1].num() % 5 == 4) bb = true;
+      if (bb && !was_hang && plan.at("knobs").geti("placement", 1) != P_PACKED_FAR) {
+        Json p = plan; p["knobs"].set("placement", (int) P_PACKED_FAR);
+        ChildEnd c = run_isolated(*this, p, hang_seconds(), false);
+        if (c.status == "ok") { e.cls = "lazybb_rel32_far_placement"; e.detail = "the same history with all code holders packed within 2GB runs correctly: " + e.detail; return; }
+      }
+    }
     bool uses_bb = false; for (auto &op : plan.at("ops").a) if (op.k == Json::Arr && op.size() > 1 && op[0].s == "link" && op[1].num() % 5 == 4) uses_bb = true;
     for (int level = 0; level < 4; level++) {
       Json p = plan; Json ops = Json::array(); size_t nm = plan.at("prog").at("mods").size();
